@@ -1129,12 +1129,15 @@ def cases_depth1(thorough):
         e = ('cfg', sec, key, v)
         n += 1
         if mode == 'real':
+            # quick: all three functions for the first value of a key, one
+            # (rotating, but one in which the key has an effect) for the
+            # further values
+            r0 = next(r for r in range(3)
+                      if _effective(sec, key, FUNCS[(r + n) % 3]))
             for r in range(3):
                 fn, fmt = FUNCS[(r + n) % 3], FMTS[(2*r + n) % 3]
-                # quick: all three functions for the first value of a key,
-                # one (rotating) for the further values
                 if thorough or (i == 0 and _relevant(sec, key, fn)) or \
-                        (i > 0 and r == 0):
+                        (i > 0 and r == r0):
                     cs.append(mk_case([e], fn, fmt, 'real', n + r))
             if sec == 'layered':
                 # also without layered=True (options stored, no effect)
@@ -1167,6 +1170,15 @@ def cases_depth1(thorough):
                                        '--dry-run')):
             cs.append(mk_case([e], FUNCS[n % 3], FMTS[n % 3], 'dry', n))
     return cs
+
+
+def _effective(sec, key, fn):
+    """Is `fn` a function in which the key really changes the output?"""
+    if sec == 'noise_opts':
+        return fn == 'forward'
+    if key == 'tol_gradient':
+        return fn == 'gradient'
+    return True
 
 
 def _relevant(sec, key, fn):
@@ -1374,7 +1386,7 @@ def run(ctx):
         "reproduces with the same exception type counts as equivalent",
         "unknown *sections* are outside the stated property and not tested")
     thorough = not ctx.quick
-    cap = ctx.budget or (110 if ctx.quick else 1100)
+    cap = ctx.budget or (440 if ctx.quick else 2200)
     with tempfile.TemporaryDirectory(prefix='c18t_') as troot:
         # input files are written once here; every case copies them
         for fmt in FMTS:
